@@ -71,7 +71,8 @@ Fixpoint rs_first_occ (seen keys : list str) : list str :=
 Definition rs_with_key (k : str) (flat : list rs_sfield) : list rs_sfield :=
   filter (fun f => streq k (sf_key f)) flat.
 
-(* leaf values: a defined enum value; a built-in scalar of the right JSON kind; any value for a custom scalar *)
+(* leaf values: a defined enum value; a built-in scalar of the right JSON kind; any non-null value for a custom
+   scalar *)
 Definition rs_i32 (z : Z) : Prop := (-2147483648 <= z < 2147483648)%Z.
 
 Definition RsLeafOk (s : schema) (n : str) (v : rs_json) : Prop :=
@@ -83,7 +84,7 @@ Definition RsLeafOk (s : schema) (n : str) (v : rs_json) : Prop :=
       else if streq n rs_n_string then exists x, v = RJString x
       else if streq n rs_n_boolean then exists b, v = RJBool b
       else if streq n rs_n_id then exists x, v = RJString x
-      else True
+      else v <> RJNull
   | _ => False
   end.
 
